@@ -3,9 +3,10 @@
    semantics ([sxfm_sat], [pl_sat]); the text rendering of the documents is tied to the implementation
    byte for byte by suites W-splot / W-pl, and independent interpreters of the texts decide the
    property on the implementation over all 2^n selections. *)
-From Coq Require Import List Bool String ZArith.
+From Coq Require Import List Bool String ZArith Permutation.
 From FM Require Import Base.Result Base.AstOp Model.Ast Model.FM Model.Queries Model.Sem Format.Export
-     Proofs.C18Facts Proofs.C10Facts.
+     Proofs.C18Facts Proofs.C10Facts
+     Model.PyRt Model.Loc Gen.Src_pl Gen.Src_splot Proofs.SrcPlFacts Proofs.SrcSplotFacts.
 Import ListNotations.
 Local Open Scope list_scope.
 
@@ -41,6 +42,40 @@ Theorem C10_pl_no_feature_missing : forall m d, pl_write m = Ok d ->
   forall x, In x (names (root m)) -> exists p, In p d /\ pl_mentions x p.
 Proof. exact C10_pl_names. Qed.
 Print Assumptions C10_pl_no_feature_missing.
+
+(* ---- the two exports about the TRANSLATED SOURCE (Gen/Src_splot.v, Gen/Src_pl.v: splot_writer.py and pl_writer.py
+   re-translated on every run; DESIGN §10): the text the translated writers produce is the rendering of the structured
+   documents the theorems above are about ---- *)
+Theorem C10_source_splot_text : forall m fuel, (fuel_tree (root m) <= fuel)%nat -> py_fm_to_splot fuel m = splot_text m.
+Proof. exact src_fm_to_splot. Qed.
+Print Assumptions C10_source_splot_text.
+
+Theorem C10_source_splot_writer_object : forall path m fuel, (fuel_tree (root m) <= fuel)%nat ->
+  py_SPLOTWriter_transform fuel (py_SPLOTWriter_new path m) = splot_text m.
+Proof.
+  intros path m fuel H. unfold py_SPLOTWriter_transform, py_SPLOTWriter_new. cbn.
+  rewrite (src_fm_to_splot m fuel H). destruct (splot_text m); reflexivity.
+Qed.
+Print Assumptions C10_source_splot_writer_object.
+
+(* the propositional export: the lines of the translated to_exp are a permutation of the rendered formulas (the code
+   visits the relations with an explicit stack) — for every model whose relations have children *)
+Theorem C10_source_pl_lines : forall m fuel lines, (fuel_model m <= fuel)%nat ->
+  Forall (fun r => r_children r <> []) (subrelations (root m)) ->
+  pl_lines m = Ok lines ->
+  exists l, py_to_exp fuel m = Ok l /\ Permutation l lines.
+Proof. exact src_pl_to_exp_lines. Qed.
+Print Assumptions C10_source_pl_lines.
+
+Theorem C10_source_pl_relation_formula : forall r o p, r_children r <> [] -> pl_relation (name (fst o)) r = Ok p ->
+  py_get_relation_formula (r, o) = Ok (render_pl p).
+Proof. exact src_pl_relation_formula_ok. Qed.
+Print Assumptions C10_source_pl_relation_formula.
+
+Theorem C10_source_pl_constraint_formula : forall c fuel, (fuel_node (c_ast c) <= fuel)%nat ->
+  py_get_constraint_formula fuel c = rmap render_pl (pl_node (c_ast c)).
+Proof. exact src_pl_constraint_formula. Qed.
+Print Assumptions C10_source_pl_constraint_formula.
 
 (* non-vacuity: a model with an or-group, a [2..3] group, a mutex group and two constraints meets the premises *)
 Definition ex10 : fm :=
